@@ -556,7 +556,7 @@ def map_spec(sig, which, m, k):
 
 class _MapLoop(LoopContract):
     ordinal = 0
-    tags = ("C11", "C12", "C05", "C07", "C01")
+    tags = ("C11", "C12", "C05", "C07", "C01", "C17")
     which = "e"
 
     def snapshot(self, I, fr, seq):
@@ -621,7 +621,7 @@ class ExploitMapBounded(_MapModel):
     inline_needs_key = "e_shape"       # the real loop needs concrete table keys; otherwise the model is used
     unbounded = True                   # symbolic tables of any size: nested-map loop invariant (ExploitMapLoop)
     # the decoded action carries the cost (C05), probability (C07) and access level (C01) of the definition the map holds
-    tags = {"": ("C11", "C19", "C12", "C05", "C07", "C01")}
+    tags = {"": ("C11", "C19", "C12", "C05", "C07", "C01", "C17")}
     which = "e"
 
     def modifies(self, I, S):
@@ -928,12 +928,38 @@ class GymEnvInit(EnvInit):
     environment the keyword arguments describe (registered ids differ only in these keywords)"""
     qualname = "nasim.envs.gym_env.NASimGymEnv.__init__"
 
+    def variants(self):
+        return ["flat-actions", "param-actions", "flat-actions/by-name"]
+
     def setup(self, I, variant):
-        S = super().setup(I, variant)
+        by_name = variant.endswith("/by-name")
+        S = super().setup(I, variant.split("/")[0])
         env = Obj(I.repo.cls("nasim.envs.gym_env.NASimGymEnv"), {}, fresh=False, label="env")
         S.a = {"self": env}
         S.call_args = ([env] + list(S.call_args[0][1:]), S.call_args[1])
+        S.extra["by_name"] = by_name
+        if by_name:
+            # the path gymnasium.make() takes: a benchmark NAME; the scenario is whatever make_benchmark_scenario(name)
+            # returns for it (call-site model: the generator is handed the parameters it is called with)
+            I.ext_state["toplevel_scenario"] = S.call_args[0][1]
+            m = I.repo.module("nasim.scenarios.benchmark.generated")
+            reg = I.module_global(m, "AVAIL_GEN_BENCHMARKS")
+            for d in [reg] + list(reg.d.values()):
+                d.fresh = False
+            S.extra["reg"] = reg
+            S.call_args = ([env, "small-gen"], S.call_args[1])
         return S
+
+    def modifies(self, I, S):
+        return [S.a["self"]] + (list(S.extra["reg"].d.values()) if S.extra.get("by_name") else [])
+
+    def ensures(self, I, S):
+        out = super().ensures(I, S)
+        if S.extra.get("by_name"):
+            kw = I.ext_state.get("generate_called_with")
+            ok = isinstance(kw, dict) and "seed" in kw
+            out.append(("C14.registered-id-uses-the-benchmarks-own-seed", z3.BoolVal(ok and kw["seed"] is None)))
+        return out
 
 
 # ---------------------------------------------------------------------------- Scenario.__init__ (host numbering)
@@ -971,7 +997,8 @@ class ScenarioInit(Contract):
     qualname = SCN + "__init__"
     callable_by_contract = False
     bounded = False
-    tags = {"": ("C09", "C19", "C11")}
+    # the host numbering is what ties a host's row in every tensor to its configuration: tensorize's clauses rest on it
+    tags = {"": ("C09", "C19", "C11", "C01", "C08", "C04")}
 
     def setup(self, I, variant):
         sig = sig_setup(I)
